@@ -61,9 +61,10 @@ PlanGroupFailed(s, g) == GroupFailed(s, 0, g)
 Live(s) == ~s.crashed          \* first process lifetime of the plan (C01..C07 are stated for it)
 Running(s) == Live(s) /\ s.waited = <<>> /\ ~s.frozen
 Resumed(s) == s.crashed /\ s.wasRunning /\ s.rec /\ ~s.old   \* a plan the new process must resume
+Executing(s) == Running(s) \/ (Resumed(s) /\ s.waited = <<>> /\ ~s.frozen)   \* also a resumed plan before its final write
 
 Letter(out) == CASE out = "ok" -> "o" [] out = "tr" -> "t" [] out = "perm" -> "p"
-                 [] out \in {"wrongtype", "wrongtr"} -> "w" [] out = "overrun" -> "x" [] OTHER -> "?"
+                 [] out \in {"wrongtype", "wrongtr"} -> "w" [] out \in {"overrun", "lateok"} -> "x" [] OTHER -> "?"
 DigStr(q) == IF q = <<>> THEN "-" ELSE FoldLeft(LAMBDA acc, x : acc \o x, "", q)
 
 SnapOf(sn) == [o \in {x.obj : x \in ToSet(sn)} |-> CHOOSE x \in ToSet(sn) : x.obj = o]
@@ -130,9 +131,10 @@ C01_DeferredLast(s, e) == (IsP(e) /\ Running(s)) =>
     /\ \A sc \in s.defStarted : InScope(d, sc) => AllowedWithDeferred(d, sc)
 
 (* ---------------- C02: concurrency bound ---------------- *)
-C02_Bound(s, e) == (IsP(e) /\ Running(s) /\ D(s, e.obj).k = "act") =>
+\* (also in a process that resumes the plan: at most Concurrency sequences were in progress at the crash)
+C02_Bound(s, e) == (IsP(e) /\ Executing(s) /\ D(s, e.obj).k = "act") =>
     Cardinality(InflSeqs(s, D(s, e.obj).b) \cup {D(s, e.obj).s}) <= BlockCfg(s, D(s, e.obj).b).conc
-C02_OneBlock(s, e) == (IsP(e) /\ Running(s) /\ D(s, e.obj).k = "act") =>
+C02_OneBlock(s, e) == (IsP(e) /\ Executing(s) /\ D(s, e.obj).k = "act") =>
     \A x \in Infl(s) : D(s, x).k = "act" => D(s, x).b = D(s, e.obj).b
 
 (* ---------------- C03: tolerated failures ---------------- *)
@@ -142,7 +144,6 @@ C03_Bound(s, e) == (IsW(e) /\ Running(s) /\ D(s, e.obj).k = "seq" /\ e.st = FA) 
 C03_StopExact(s, e) == (IsW(e) /\ Running(s) /\ D(s, e.obj).k = "seq" /\ e.st = RU) =>
     LET b == D(s, e.obj).b  t == BlockCfg(s, b).tol IN
     (t >= 0 /\ BlockCfg(s, b).conc = 1) => FailedSeqs(s, b) <= t
-Executing(s) == Running(s) \/ (Resumed(s) /\ s.waited = <<>> /\ ~s.frozen)   \* also a resumed plan before its final write
 C03_BlockVerdict(s, e) == (IsW(e) /\ Executing(s) /\ D(s, e.obj).k = "blk" /\ Terminal(e.st) /\ Changes(s, e)) =>
     LET b == D(s, e.obj).b  t == BlockCfg(s, b).tol  exceeded == t >= 0 /\ FailedSeqs(s, b) > t IN
     /\ e.st = FA => (exceeded \/ BlockChecksFailed(s, b) \/ PlanGroupFailed(s, "cont"))
@@ -160,7 +161,7 @@ C04_NothingRunning(s, e) == (e.ev = "WaitRet" /\ Live(s)) => \A x \in ToSet(e.sn
 C04_Quiescent(s, e) ==
     /\ (e.ev = "WaitRet" /\ Live(s)) => (Infl(s) = {} /\ e.infl = 0)
     /\ (Live(s) /\ s.waited # <<>> /\ e.ev \in {"W", "PStart"}) => FALSE
-    /\ (Live(s) /\ s.waited # <<>> /\ e.ev = "PEnd") => e.out = "overrun"
+    /\ (Live(s) /\ s.waited # <<>> /\ e.ev = "PEnd") => e.out \in {"overrun", "lateok"}
 C04_Stable(s, e) == (e.ev = "Read" /\ Live(s) /\ s.waited # <<>>) => (e.snap = s.waited /\ e.reason = s.wreason)
 SeqConsistent(s, sn, q) ==
     LET d == D(s, q)  n == d.n
@@ -217,7 +218,7 @@ C05_Recorded(s, e) == (e.ev = "WaitRet" /\ Live(s)) =>
         /\ x.dig = DigStr(s.outs[x.obj])
         /\ x.last = "ok" => x.rtag = s.lastTag[x.obj]
         /\ x.last # "wrongtype-kept"
-C05_Overrun(s, e) == (e.ev = "PEnd" /\ e.out = "overrun") => e.ctxdone
+C05_Overrun(s, e) == (e.ev = "PEnd" /\ e.out \in {"overrun", "lateok"}) => e.ctxdone
 
 (* ---------------- C06: bypass and pre-check gating ---------------- *)
 C06_BypassSkips(s, e) ==
@@ -258,8 +259,14 @@ EnteredScopes(s) == (IF BypassedScope(s, 0) THEN {} ELSE {0}) \cup {b \in s.ente
 C07_DeferredOnce(s, e) == (e.ev = "WaitRet" /\ Live(s)) =>
     \A sc \in 0..NB(s) : HasGroup(s, sc, "deferred") =>
         s.grpRuns[Grp(sc, "deferred")] = (IF sc \in EnteredScopes(s) THEN 1 ELSE 0)
-C07_DeferredFails(s, e) == (e.ev = "WaitRet" /\ Live(s) /\ ~BypassedScope(s, 0)) =>
-    (PlanGroupFailed(s, "deferred") => SnapOf(e.snap)["p"].st = FA)
+C07_DeferredFails(s, e) ==
+    /\ (e.ev = "WaitRet" /\ Live(s) /\ ~BypassedScope(s, 0)) => (PlanGroupFailed(s, "deferred") => SnapOf(e.snap)["p"].st = FA)
+    /\ (IsW(e) /\ Running(s) /\ D(s, e.obj).k = "blk" /\ e.st = CO /\ ~BypassedScope(s, D(s, e.obj).b)) =>
+          (HasGroup(s, D(s, e.obj).b, "deferred") => ~s.grpFail[Grp(D(s, e.obj).b, "deferred")])
+\* ... and exactly once also across a restart: a deferred group that had completed a run (passed or failed) before the
+\* crash is not run again by the new process
+C07_DeferredNotAgain(s, e) == (IsP(e) /\ s.crashed /\ D(s, e.obj).k = "cact" /\ D(s, e.obj).g = "deferred") =>
+    ~Terminal(s.cdur[Grp(D(s, e.obj).b, "deferred")].st)
 
 (* ---------------- C08: persist before act ---------------- *)
 C08_RunningBeforeInvoke(s, e) == (IsP(e) /\ s.waited = <<>>) => s.dur[e.obj].st = RU
@@ -278,9 +285,11 @@ C08_Monotone(s, e) == (e.ev = "R" /\ D(s, e.obj).k \in {"blk", "seq", "act"}) =>
     (s.rterm[e.obj] # "none" => e.st = s.rterm[e.obj])
 
 (* ---------------- C09: no re-execution after a crash ---------------- *)
+\* (the deferred checks of a block that had failed but not yet run them are still owed after the restart: running
+\* them is not re-running the block; C07_DeferredNotAgain forbids running them a second time)
 EnclosingTerminal(s, d) ==
     \/ Terminal(s.cdur["p"].st)
-    \/ d.b >= 1 /\ Terminal(s.cdur[ScopeName(d.b)].st)
+    \/ d.b >= 1 /\ Terminal(s.cdur[ScopeName(d.b)].st) /\ ~(d.k = "cact" /\ d.g = "deferred")
     \/ d.k = "act" /\ Terminal(s.cdur[SeqName(d.b, d.s)].st)
 C09_NoRedoAction(s, e) == (IsP(e) /\ s.crashed /\ D(s, e.obj).k = "act") =>
     (s.cdur[e.obj].st # CO /\ s.cdur[e.obj].last # "ok")
@@ -342,7 +351,7 @@ ClauseNames == {
     "C04_FailedCheckFailsPlan",
     "C05_Bound", "C05_StopOnFinal", "C05_OneAttemptPerCall", "C05_Recorded", "C05_Overrun",
     "C06_BypassSkips", "C06_BypassFailRuns", "C06_PreFailBlocks", "C06_ContInitialFail",
-    "C07_ContKeepsRunning", "C07_ContFailureFails", "C07_DeferredOnce", "C07_DeferredFails",
+    "C07_ContKeepsRunning", "C07_ContFailureFails", "C07_DeferredOnce", "C07_DeferredFails", "C07_DeferredNotAgain",
     "C08_RunningBeforeInvoke", "C08_AttemptBeforeNext", "C08_TerminalBeforeRelease", "C08_Monotone",
     "C09_NoRedoAction", "C09_NoRedoFinished", "C09_OnlyInFlight",
     "C10_Terminates", "C10_Terminal", "C10_NothingRunning", "C10_Quiescent", "C10_Stable", "C10_Consistent", "C10_Times",
@@ -369,6 +378,7 @@ Holds(c, s, e) ==
       [] c = "C06_PreFailBlocks" -> C06_PreFailBlocks(s, e) [] c = "C06_ContInitialFail" -> C06_ContInitialFail(s, e)
       [] c = "C07_ContKeepsRunning" -> C07_ContKeepsRunning(s, e) [] c = "C07_ContFailureFails" -> C07_ContFailureFails(s, e)
       [] c = "C07_DeferredOnce" -> C07_DeferredOnce(s, e) [] c = "C07_DeferredFails" -> C07_DeferredFails(s, e)
+      [] c = "C07_DeferredNotAgain" -> C07_DeferredNotAgain(s, e)
       [] c = "C08_RunningBeforeInvoke" -> C08_RunningBeforeInvoke(s, e) [] c = "C08_AttemptBeforeNext" -> C08_AttemptBeforeNext(s, e)
       [] c = "C08_TerminalBeforeRelease" -> C08_TerminalBeforeRelease(s, e) [] c = "C08_Monotone" -> C08_Monotone(s, e)
       [] c = "C09_NoRedoAction" -> C09_NoRedoAction(s, e) [] c = "C09_NoRedoFinished" -> C09_NoRedoFinished(s, e)
@@ -394,8 +404,8 @@ ClausesFor(t) ==
   CASE t = "PStart" -> {"C01_BlockOrder", "C01_ActionOrder", "C01_PreGate", "C01_PostAfterSeqs", "C01_DeferredLast", "C02_Bound", "C02_OneBlock",
                         "C03_AfterFailedBlock", "C04_Quiescent", "C05_Bound", "C05_StopOnFinal", "C06_BypassSkips", "C06_PreFailBlocks",
                         "C06_ContInitialFail", "C08_RunningBeforeInvoke", "C08_AttemptBeforeNext", "C09_NoRedoAction", "C09_NoRedoFinished",
-                        "C09_OnlyInFlight", "C10_Quiescent", "C11_Untouched", "C11_AgedOut", "C12_AtMostOnce"}
-    [] t = "W" -> {"C03_Bound", "C03_StopExact", "C03_BlockVerdict", "C04_Quiescent", "C05_OneAttemptPerCall", "C06_ContInitialFail",
+                        "C09_OnlyInFlight", "C10_Quiescent", "C11_Untouched", "C11_AgedOut", "C12_AtMostOnce", "C07_DeferredNotAgain"}
+    [] t = "W" -> {"C07_DeferredFails", "C03_Bound", "C03_StopExact", "C03_BlockVerdict", "C04_Quiescent", "C05_OneAttemptPerCall", "C06_ContInitialFail",
                    "C07_ContFailureFails", "C08_TerminalBeforeRelease", "C10_Quiescent", "C11_Untouched", "C12_AtMostOnce"}
     [] t = "PEnd" -> {"C04_Quiescent", "C05_Overrun"}
     [] t = "WaitRet" -> {"C03_AfterFailedBlock", "C04_Terminal", "C04_NothingRunning", "C04_Quiescent", "C04_Consistent", "C04_Times", "C04_Reason",
@@ -446,7 +456,7 @@ ObsPStart(s, e) ==
 ObsPEnd(s, e) ==
   LET d == D(s, e.obj)
       i == e.n - s.rb[e.obj] IN
-  [s EXCEPT !.inflN[e.obj] = IF e.out = "overrun" \/ @ = 0 THEN @ ELSE @ - 1,
+  [s EXCEPT !.inflN[e.obj] = IF e.out \in {"overrun", "lateok"} \/ @ = 0 THEN @ ELSE @ - 1,
             !.ends[e.obj] = @ + 1,
             !.lastOut[e.obj] = IF i = Len(s.outs[e.obj]) THEN e.out ELSE @,
             !.lastTag[e.obj] = IF i = Len(s.outs[e.obj]) THEN e.rtag ELSE @,
